@@ -89,7 +89,7 @@ def read_back(path: str, rp: str, qp: str):
     out = []
     for a in als:
         c = float(a.confidence) * 100
-        out.append({"id": int(a.alignmentId), "q": int(a.queryId), "r": int(a.referenceId),
+        out.append({"id": int(a.alignmentId), "q": pipeline.qid(a.queryId), "r": int(a.referenceId),
                     "qs": int(a.queryStartPosition), "qe": int(a.queryEndPosition),
                     "rs": int(a.referenceStartPosition), "re": int(a.referenceEndPosition),
                     "rev": bool(a.reverseStrand), "conf100": int(round(c)) if abs(c - round(c)) < 1e-6 else -1,
@@ -116,7 +116,7 @@ def score_lines(rows, refs: Dict, qrys: Dict, extra: Dict, parsed_main, tag) -> 
         return int(round(float(v) * 10))
 
     for k, row in enumerate(rows):
-        ref, qry = refs.get(int(row.referenceId)), qrys.get(int(row.queryId))
+        ref, qry = refs.get(int(row.referenceId)), qrys.get(pipeline.qid(row.queryId))
         if ref is None or qry is None or k >= len(recs):
             continue
         segs = []
@@ -131,7 +131,7 @@ def score_lines(rows, refs: Dict, qrys: Dict, extra: Dict, parsed_main, tag) -> 
         out.append({"in": {"ref": ref["x"], "qry": [v - x0 for v in qry["x"]], "qlen": qry["x"][-1] - x0 + 1,   # the model mirrors with (qlen - 1) - x in its own unit (deci-bp here)
                            "shift": 0, "rev": bool(row.reverseStrand), "peaks": [], "par": par},
                     "segs": segs, "conf": int(round(float(row.confidence) * unit)), "written": recs[k]["conf"],
-                    "tag": dict(tag, query=int(row.queryId), rest=recs[k]["rest"], segments=len(segs))})
+                    "tag": dict(tag, query=pipeline.qid(row.queryId), rest=recs[k]["rest"], segments=len(segs))})
     return out
 
 
@@ -157,7 +157,7 @@ def fragment_lines(rows, qp: str, tag) -> List[Dict]:
         line = {"xs": [d10(v) for v in q.positions], "qlen": d10(q.length),
                 "row": {"qs": d10(row.queryStartPosition), "qe": d10(row.queryEndPosition), "rev": bool(row.reverseStrand),
                         "firstQ": int(pairs[0].query.siteId), "lastQ": int(pairs[-1].query.siteId)},
-                "obs": [], "status": "ok", "tag": dict(tag, query=int(row.queryId))}
+                "obs": [], "status": "ok", "tag": dict(tag, query=pipeline.qid(row.queryId))}
         try:
             for fr in row.getUnalignedFragments(queries):
                 line["obs"].append({"x": [d10(v) for v in fr.positions], "shift": int(fr.shift), "len": d10(fr.length)})
@@ -187,6 +187,16 @@ def far_input(rng: random.Random, n_qry: int) -> Dict:
 
 def explore_input(seed: int, idx: int, modes: List[str], n_qry: int, with_readback: bool, record: bool,
                   kinds=None, keep_rows: bool = False) -> Dict:
+    # every 5th input: query ids 2^53 + small id (valid int64 ids that collide pairwise when cast to float64)
+    pipeline.QID_BASE = 2 ** 53 if idx % 5 == 4 else 0
+    try:
+        return _explore_input(seed, idx, modes, n_qry, with_readback, record, kinds, keep_rows)
+    finally:
+        pipeline.QID_BASE = 0
+
+
+def _explore_input(seed: int, idx: int, modes: List[str], n_qry: int, with_readback: bool, record: bool,
+                   kinds=None, keep_rows: bool = False) -> Dict:
     """one generated input, run in every mode in process; returns Trace_Xmap lines and a per-mode summary"""
     rng = random.Random(seed * 100003 + idx)
     if kinds == ["far"]:
@@ -198,7 +208,8 @@ def explore_input(seed: int, idx: int, modes: List[str], n_qry: int, with_readba
     wd = os.path.join(os.environ.get("VERIF_WORK", "/verif/work"), f"pipe-{os.getpid()}-{seed}-{idx}")
     os.makedirs(wd, exist_ok=True)
     lines: List[Dict] = []
-    summary = {"idx": idx, "extra": extra, "modes": {}, "qrys": [{"id": q["id"], "kind": q["kind"]} for q in inp["qrys"]]}
+    summary = {"idx": idx, "extra": extra, "modes": {}, "qrys": [{"id": q["id"], "kind": q["kind"]} for q in inp["qrys"]],
+               "query_id_base": pipeline.QID_BASE}
     try:
         rp, qp = pipecases.write_input(wd, inp, "in", shuffle_rng=rng if idx % 3 == 0 else None)
         refs = {r["id"]: r for r in inp["refs"]}
